@@ -255,7 +255,7 @@ def parse_line(line):
     toks = line.split()
     if toks and toks[0] in ("D", "R"):
         toks = toks[1:]
-    if not toks or toks[0] not in ("OPS", "OPSA"):
+    if not toks or toks[0] not in ("OPS", "OPSA", "OPSX"):
         return None
     t = genb.T(toks)
     t.next()
@@ -466,6 +466,11 @@ def corpus():
     # set_payload the bundle must still round-trip (a decoder that reads four zero bytes as "no CRC calculated yet" does not)
     out.append(mk_line(OFFSET + 2000, std, [("SETCRC", 2), ("SETPAYLOAD", bytes.fromhex("62703720f81c8f51"))]))
     out.append(mk_line(OFFSET + 2000, std, [("SETPAYLOAD", bytes.fromhex("62703720f81c8f51")), ("SETCRC", 2), ("ADD", _c(7, 0, ("AGE", 1)))]))
+    # a payload of several MiB, then small ones again (anything an encoder keeps between calls must not leak into the next encoding);
+    # implementation only - the extracted model needs minutes for 10 MB lines - judged by the oracle (invariant, payload read back, round trip)
+    big = bytes((i * 7 + 3) % 256 for i in range(5 * 1024 * 1024 + 17))
+    out.append("OPSX" + mk_line(OFFSET + 2000, std, [("SETPAYLOAD", big), ("SETPAYLOAD", b"small again"), ("SETCRC", 1), ("SETPAYLOAD", b"")])[3:])
+    out.append("OPSX" + mk_line(OFFSET + 2000, std, [("SETCRC", 2), ("SETPAYLOAD", big[:1048576 + 3]), ("ADD", unk), ("SETPAYLOAD", b"x")])[3:])
     # builder input in arbitrary order, payload first
     out.append(mk_line(OFFSET + 2000, dict(p=dict(P0), cs=[pay, _c(7, 2, ("AGE", 0)), _c(10, 4, ("HOP", 32, 0)), _c(6, 3, ("PREV", EIDS[2]))]),
                        [("SORT",), ("ADD", unk), ("UPD", EIDS[1], U64)]))
@@ -559,7 +564,7 @@ def same(line, io, mo):
     """Equality with the model is demanded where the property forces the answer.  Where the implementation has latitude - every `API`
     line, and `OPS` lines whose start state or arguments are made by BundleBuilder / the public constructors (BUILD, BUILDP, ADDC: a
     constructor may normalise its arguments) - the oracle alone judges (invariant after every step, payload, validity, round trip)."""
-    return api_common.same(line, io, mo) or any(k in line for k in (" ; BUILD", " ; ADDC "))
+    return api_common.same(line, io, mo) or any(k in line for k in (" ; BUILD", " ; ADDC ")) or line.startswith("OPSX ")
 
 
 def _sig(ops):
